@@ -365,6 +365,12 @@ class Interp:
             return UNIT
         if t in CONSTS:
             return CONSTS[t]()
+        m = re.match(r"^ZeroSized: (\{closure@.*\})$", t)
+        if m:
+            return Closure(m.group(1), [])   # a closure that captures nothing
+        m = re.match(r"^ZeroSized: fn\(.*\) (?:-> .* )?\{(.*)\}$", t)
+        if m:
+            return FnItem(m.group(1))
         c = self.resolve_const(t)
         if c is not None:
             leaves = self.run(c, [], st)
@@ -849,6 +855,45 @@ def _and_then(it, st, args):
     return out
 
 
+def _call_callable(it, st, f, args):
+    if isinstance(f, Closure):
+        return it.call_closure(f, args, st)
+    if isinstance(f, FnItem):
+        return it.call(f.name, args, st)
+    raise NotEncoded("callee of a combinator")
+
+
+def _opt_filter(it, st, args):
+    o, f = args
+    if o.disc == 0:
+        return [(None, "ret", Enum("Option", 0, []))]
+    it.next_fid += 1
+    tmp = -1000 - it.next_fid
+    st.mem[tmp] = {"t": o.fields[0]}
+    out = []
+    for s2, leaf in _call_callable(it, st, f, [Ref(tmp, "t", [])]):
+        extra = s2.pc[len(st.pc):]
+        c = z3.And(extra) if extra else z3.BoolVal(True)
+        if leaf.kind != "ret":
+            out.append((c, leaf.kind, leaf.value))
+            continue
+        out.append((z3.And(c, leaf.value.b), "ret", Enum("Option", 1, [o.fields[0]])))
+        out.append((z3.And(c, z3.Not(leaf.value.b)), "ret", Enum("Option", 0, [])))
+    return out
+
+
+def _opt_map(it, st, args):
+    o, f = args
+    if o.disc == 0:
+        return [(None, "ret", Enum("Option", 0, []))]
+    out = []
+    for s2, leaf in _call_callable(it, st, f, [o.fields[0]]):
+        extra = s2.pc[len(st.pc):]
+        c = z3.And(extra) if extra else None
+        out.append((c, leaf.kind, Enum("Option", 1, [leaf.value]) if leaf.kind == "ret" else leaf.value))
+    return out
+
+
 def _deref_all(it, st, v):
     while isinstance(v, Ref):
         v = it.read_at(st, v.fid, v.local, v.path)
@@ -950,6 +995,8 @@ CORE = {
     "<u32 as TryFrom<i32>>::try_from": _try_from_i32_u32,
     "Result::ok": _result_ok,
     "Option::and_then": _and_then,
+    "Option::filter": _opt_filter,
+    "Option::map": _opt_map,
     "<i32 as PartialOrd>::partial_cmp": _partial_cmp_i32,
     "<f64 as PartialOrd>::partial_cmp": _partial_cmp_f64,
     "<&i32 as PartialEq>::eq": _eq_ref,
@@ -990,7 +1037,7 @@ CORE_DOC = {
     "core::num::<impl i32>::wrapping_shr": "bvashr by (count & 31)",
     "<u32 as TryFrom<i32>>::try_from": "Ok(same bits) iff x >=s 0",
     "Result::ok": "Ok(v) -> Some(v), Err -> None",
-    "Option::and_then": "None -> None, Some(v) -> the closure's MIR body on v",
+    "Option::and_then": "None -> None, Some(v) -> the closure's MIR body on v (filter, map likewise)",
     "<i32 as PartialOrd>::partial_cmp": "Some(Less/Equal/Greater) by bvslt / =",
     "<f64 as PartialOrd>::partial_cmp": "fp.lt / fp.eq / fp.gt, None iff an operand is NaN",
     "<f64 as From<i32>>::from": "to_fp RNE signed (exact for 32 bits)",
